@@ -30,7 +30,7 @@ ASSUMPTIONS = [
 COMPONENTS = {"real": ["Transmitter._reset/_next/walk_forward", "Folds.as_time", "PartitionTimeRanges", "TradingEnv.reset/step"],
               "harness": ["delivery model", "seed sweeps"], "stub": []}
 PROBE_FLOORS = {"episode_length_exact": 248, "refused_when_nothing_fits": 30, "all_starts_reached": 29, "overlapping_folds": 50,
-                "walk_forward_run": 29, "sampling_span": 21, "reset_argument_override": 20, "length_equals_fold_size": 30, "foreign_prng_draws": 57}
+                "walk_forward_run": 29, "sampling_span": 21, "reset_argument_override": 20, "length_equals_fold_size": 30, "foreign_prng_draws": 57, "resets_on_other_folds_in_between": 15}
 
 PROFILE = {
     "n_min": 3, "n_max": 14, "n_long": 40, "p_long": 0.1, "c_min": 1, "c_max": 2, "p_bar": 1.0, "extras_max": 4,
@@ -99,6 +99,16 @@ def generate(rng, i):
             script.append({"op": "reset", "env": 0, "fold": f, "np_seed": rng.randrange(2 ** 31)})
             for _ in range(len(st)):
                 script.append({"op": "step", "env": 0, "action": null_action(env)})
+    if mode == "length" and len(folds) >= 2 and script and rng.random() < 0.4:
+        # resets on the other folds in between (where the configured length may not fit and the request is refused):
+        # what a refused or foreign-fold request leaves behind must not leak into the next episode of this fold
+        others = [f for f in folds if f != fold]
+        for _ in range(rng.randint(1, 3)):
+            pos = rng.choice([j for j, op in enumerate(script) if op["op"] == "reset"])
+            extra = [{"op": "reset", "env": 0, "fold": rng.choice(others), "np_seed": rng.randrange(2 ** 31), "foreign_fold": True}]
+            for _ in range(rng.randint(0, 2)):
+                extra.append({"op": "step", "env": 0, "action": null_action(env)})
+            script[pos:pos] = extra
     if not script:
         script = [{"op": "reset", "env": 0, "fold": folds[0], "np_seed": 1}]
     return {"kind": "epi", "envs": [env], "clock0": "1999-01-01T00:00:00", "script": script, "prng": rng.randrange(2 ** 31)}
@@ -296,6 +306,8 @@ def execute(scenario):
         probe("sampling_span")
     if sim.faults.get("foreign_prng_draw"):
         probe("foreign_prng_draws")
+    if any(op.get("foreign_fold") for op in scenario["script"]):
+        probe("resets_on_other_folds_in_between")
     folds = env_spec.get("folds") or {}
     if len(folds) >= 2:
         wins = sorted((core.parse_t(a), core.parse_t(b)) for a, b in folds.values())
